@@ -1173,7 +1173,13 @@ impl OpLogRecord {
     }
 
     pub fn to_key(&self) -> String {
-        format!("{}_{}", self.db, self.key)
+        match self.opp {
+            // Records about the database itself carry a fixed key id (1 and 2) that must not be
+            // mistaken for (and replace, or be replaced by) the record of the real key with that id
+            ReplicateOpp::CreateDb => format!("{}_create-db", self.db),
+            ReplicateOpp::Snapshot => format!("{}_snapshot", self.db),
+            _ => format!("{}_{}", self.db, self.key),
+        }
     }
 
     pub fn to_string(&self) -> String {
